@@ -68,7 +68,7 @@ def unit_apply_options(tier=None, seed=None, prop="C06"):
         got = st["got"].get("correct_tip_offset")
         S.ensure("step_called_with_its_options", got is not None and "method" in got
                  and got["method"] is st["inner"].d["method"][1])
-        S.ensure("ret_details_forwarded", got is not None and got.get("ret_details") is st["ret_details"])
+        S.ensure("ret_details_forwarded", got is not None and bool(got.get("ret_details", False)) == bool(st["ret_details"]))
         S.ensure("caller_options_not_modified", list(st["inner"].d) == ["method"] and list(st["options"].d) == ["correct_tip_offset"]
                  and not any(m is st["inner"] or m is st["options"] for m in I.mutations))
         S.ensure("identifiers_not_modified", st["ids"] == ["compute_tip_position", "correct_tip_offset"]
